@@ -88,15 +88,16 @@ example : Matches (.alt (.char 'a') (.star (.char 'b'))) "bb".toList 0 2 ∧
 /-- `compileAnchored` is: validate the pattern on its own, THEN compile it inside `^(?:%s)$`;
 the member loop is: every requested tag read as `m.Tags[tag]` (missing = ""), the status filter
 and the name filter each skipped when empty and matched against `m.Status.String()` / `m.Name`;
-the three filters are compiled by that helper from `tags[tag]`, `status`, `name`; every error
-return carries no list; `handleMembers` returns the error right after the call. -/
+every requested tag value, the status and the name filter are compiled that way and every compile
+error is returned at once with no list; `handleMembers` passes the request's Tags / Status / Name and
+returns the filter's error right after the call.  (The translator works by meaning: names of locals,
+parameters, receiver, label and helper, hoisted constants, Sprintf vs concatenation, loop forms,
+nested vs `&&` guards, the order of the independent guards and error texts do not matter.) -/
 theorem C26_shape :
     Gen.AnchorTemplate.shape = canonicalShape ∧
-    Gen.AnchorTemplate.sites = [("tagsRe[tag]", "tags[tag]", "compileAnchored"), ("statusRe", "status", "compileAnchored"),
-      ("nameRe", "name", "compileAnchored")] ∧
-    Gen.AnchorTemplate.errorReturns = ["nil", "nil", "nil"] ∧
-    Gen.AnchorTemplate.handler =
-      "call:raw, err = i.filterMembers(raw, req.Tags, req.Status, req.Name) | next:if err != nil { return err }" := by
+    Gen.AnchorTemplate.compilesAll = true ∧
+    Gen.AnchorTemplate.handlerRequestFields = "Tags,Status,Name" ∧
+    Gen.AnchorTemplate.handlerReturnsError = true := by
   decide
 
 /-- What the members command documents (docs/commands/members.html.markdown, regenerated): the
